@@ -15,12 +15,12 @@ CLAIMED = {
                   "reals, int(str) spec; split's functional summary (determinism).", ref="7 C09"),
  "C11": dict(text="Deductive proof over all version triples / modes / ids of can_read, can_write, map_file_mode and the _check_header "
                   "decision table (format tag, write = exact version, read = same major & minor not newer, id required from 1.2.0).",
-             note="Trusted: HDF5 enforces ACC_RDONLY and TRUNC semantics (byte-level clauses of C11 are assumptions); uuid.UUID spec; "
+             note="Trusted: HDF5 enforces ACC_RDONLY and TRUNC semantics (byte-level clauses are exercised only by the bounded battery C11/bounded/c11: 900 header variants, 25 mutating calls on a read-only file); uuid.UUID spec; "
                   "attribute getters over the abstract store.", ref="7 C11"),
  "C19": dict(text="Deductive proof, per setter / force call, of the exact store footprint: the attribute (or dataset / link) written, "
                   "this entity's updated_at set to text(now) iff automatic timestamps are on, created_at written only by force/creation, "
                   "every other cell of every object unchanged; timestamp text round trip proved from the two verified conversion functions.",
-             note="Trusted: datetime strftime/strptime/utcfromtimestamp facts (assumed; bounded native cross-check planned), h5py attribute/"
+             note="Trusted: datetime strftime/strptime/utcfromtimestamp facts (assumed; cross-checked natively by the bounded battery C19/bounded/c19), h5py attribute/"
                   "dataset/link primitives as contracts over the abstract store, clock monotone.", ref="7 C19"),
  "C06": dict(text="Deductive proof (unbounded rank/extent/index) that DataView index transformation, ellipsis expansion and window "
                   "bookkeeping in nixio/data_view.py implement NumPy basic indexing on a window; obligations generated from the real "
@@ -42,7 +42,7 @@ CLAIMED = {
                   "values are what is written and that extend writes right behind the old values.",
              note="Trusted: h5py dataset resize/write/dtype primitives over the abstract store; numpy array construction as an "
                   "uninterpreted function; Property.create_new and the Property.values getter enter as assumed summaries; h5py "
-                  "accepts type-checked values; dict-style section access and persistence across reopen are not covered.",
+                  "accepts type-checked values; dict-style section access and persistence across reopen: bounded battery C10/bounded/c10 only.",
              ref="7 C10"),
  "C17": dict(text="Delegation only: deductive proof that File.flush() reaches h5py's flush on every path, that File.close() flushes "
                   "or closes (which flushes) on every path, and that the file-access property list nixio opens files with is the "
@@ -50,7 +50,7 @@ CLAIMED = {
                   "handed over by H5Fflush survives SIGKILL - is a fact about libhdf5 and the OS that no contract on nixio code can "
                   "decide; it is an assumption, not a proved clause.",
              note="Assumed, never proved: h5py.File.flush = H5Fflush(H5F_SCOPE_GLOBAL) hands all dirty metadata and chunks to the "
-                  "OS; data handed to the OS survives SIGKILL; gc.collect does not raise.", ref="7 C17"),
+                  "OS; data handed to the OS survives SIGKILL (exercised by the bounded battery C17/bounded/c17: 20-32 writer processes killed right after flush / close); gc.collect does not raise.", ref="7 C17"),
  "C01": dict(text="Partial (nixio side only): deductive proof, for every rank, extent and valid axis, of the append arithmetic "
                   "(refusal before any write unless ranks agree and shapes agree off the axis; new extent = old + data extent on the "
                   "axis only; written hyperslab = [0, D) off the axis and [E, E + D) on it, i.e. right behind the old data), of the "
@@ -58,16 +58,15 @@ CLAIMED = {
                   "exactly the given selection (no falsy index silently meaning the whole dataset). Byte-level identity per dtype, "
                   "compression transparency and persistence are h5py/libhdf5 facts and are assumed.",
              note="Trusted: h5py item assignment / resize / shape semantics as contracts over the abstract store; numpy arrays opaque; "
-                  "create_data_array's shape/dtype resolution and the compression chain are not under contract yet; a conversion "
-                  "failure inside h5py after the resize (finding F4, property C12) is outside the append contract.", ref="7 C01"),
+                  "create_data_array's shape/dtype resolution and the compression chain are outside the contracts (bounded battery "
+                  "C01/bounded/c01 only).", ref="7 C01"),
  "C13": dict(text="Partial: deductive proof that every public find_* method hands the breadth-first search exactly the start node, "
                   "the caller's filter and the depth limit as given (None = unlimited, 0 = 0), calls it once and returns its result "
                   "unchanged, and that a newly constructed Section handle carries no cached parent (the parent is a fact of the tree, "
                   "not of the access path). The search itself (breadth-first order, completeness within the limit, filter) is decided "
                   "only by a labelled BOUNDED stand-in: the real function on all ordered forests with <= 5 (thorough: 6) nodes.",
              note="The two _find_* functions enter the proofs as assumed summaries; their behaviour is checked bounded, never counted as "
-                  "proved. Section.parent / Source.parent_source / referring_* are not under contract yet (store-level identity "
-                  "reasoning).", ref="7 C13"),
+                  "proved. Section.parent / Source.parent_source / referring_* are decided only by the bounded battery C13/bounded/c13.", ref="7 C13"),
  "C14": dict(text="Partial: deductive proof, per check function and catalogue entry, that the entry is reported if and only if its "
                   "condition holds and that nothing else is reported, for check_entity (and the block/group/source wrappers), "
                   "check_property, check_sampled_dimension, check_range_dimension (ticks missing / not strictly increasing over "
@@ -75,7 +74,7 @@ CLAIMED = {
                   "reference and every dimension).",
              note="Messages are identified by template and arguments (str.format as an injective constructor). Getters are used through "
                   "their contracts; units.is_atomic / scalable through their C09 contracts. check_data_array, check_tag, "
-                  "check_multi_tag, check_feature and the check_file traversal (polymorphic containers) are NOT under contract.",
+                  "check_multi_tag, check_feature and the check_file traversal (polymorphic containers) are covered only by the bounded battery C14/bounded/c14.",
              ref="7 C14"),
  "C16": dict(text="Partial (refusal / addressing logic only, prefix verification): deductive proof for write_column, append_column, "
                   "write_rows, write_cell and read_cell that every call violating a stated condition (column length != row count, "
@@ -85,12 +84,12 @@ CLAIMED = {
                   "structured-array / h5py compound-type behaviour and are assumed.",
              note="Prefix mode: each function is executed symbolically up to its first statement outside the modelled subset (raw "
                   "h5py / structured arrays); nothing is claimed about the code after that point. create_data_frame's schema "
-                  "derivation is not under contract.", ref="7 C16"),
+                  "derivation and cell-level fidelity are covered only by the bounded battery C16/bounded/c16.", ref="7 C16"),
  "C18": dict(text="Partial (task scheduling only): deductive proof over all header versions and detector outcomes that collect_tasks "
                   "returns no task for an up-to-date file (so upgrading it writes nothing), and otherwise a list that ends with the "
                   "version step and contains each conversion step exactly when its own detector reports work, independently of the "
                   "others (a re-run after an interruption between steps therefore schedules exactly the steps still needed, version "
-                  "last). Content preservation by the conversion closures and crash behaviour inside one conversion are NOT decided.",
+                  "last). Content preservation by the conversion closures and re-runs after interruptions are decided only by the bounded battery C18/bounded/c18.",
              note="The detectors (add_file_id, update_property_values, update_alias_range_dimension), update_format_version and the "
                   "conversion closures use raw h5py inside `with` blocks and enter as assumed summaries; h5py compound datasets and "
                   "the crash model are assumptions; the resumability conclusion is argued over the proved clauses, not mechanised.",
@@ -104,24 +103,24 @@ CLAIMED = {
                   "descriptors' index_of / range_indices against the order-theoretic specification (shared with C07).",
              note="Trusted: as C06/C07/C09 (h5py selection, floats as reals, numpy less_equal/all). Descriptors are abstract in "
                   "_calc_data_slices (summaries of the three range_indices implementations, verified under C07). Tag.tagged_data, "
-                  "MultiTag row selection (_calc_data_slices_mtag) and feature_data dispatch are NOT under contract.", ref="7 C08"),
+                  "MultiTag row selection (_calc_data_slices_mtag) and feature_data dispatch: bounded battery C08/bounded/c08 only.", ref="7 C08"),
  "C03": dict(text="Partial: deductive proof over the abstract store that a container's length, positional indexing (negative indices "
                   "normalised, IndexError exactly outside [-n, n)), lookup by id, lookup by name and membership (by key and, for "
                   "entity objects, by identity) all describe the one creation-order sequence of its backend group, and that every "
-                  "legal name retrieves the entity linked under it - also a name that looks like an id (falls back to the name when "
-                  "no member carries that id).",
+                  "legal name retrieves the entity linked under it - also a name that looks like an id, and also when another member "
+                  "carries that text as its id (an exact name match wins; ids are consulted only for texts that are not a name).",
              note="Assumed: h5py creation-order index / iteration order / link lookup (the H5Group lookup primitives enter as "
-                  "contracts over the abstract store), uuid4 freshness, handle construction (_inst_item). Creation paths (duplicate "
-                  "refusal before creation, id assignment) are under contract only for properties (C10); persistence of order "
-                  "across reopen is an HDF5 fact.", ref="7 C03"),
- "C04": dict(text="Partial: deductive proof of what each delete hands to the sweeper (a plain entity: exactly its own id; a section / "
-                  "source: the id of every entity of its subtree as returned by the tree search, plus the source itself), always from "
-                  "the file root and exactly once; that removing an entry from a link list only unlinks it there (the sweeper is not "
+                  "contracts over the abstract store), uuid4 freshness, handle construction (_inst_item). Duplicate / illegal names are refused before creation by every create_* (prefix mode, shared with C12); id assignment, "
+                  "order after deletes and after reopen: bounded battery C03/bounded/c03 only.", ref="7 C03"),
+ "C04": dict(text="Partial: deductive proof of what each delete hands to the sweeper (a plain entity: exactly its own id and its own HDF5 object; a section / "
+                  "source: the id and the object of every entity of its subtree as returned by the tree search, plus the source "
+                  "itself), always from the file root and exactly once; that removing an entry from a link list only unlinks it there (the sweeper is not "
                   "involved); and of the sweeper's per-group step (loop invariant: EVERY member of the visited group whose id is to "
-                  "be deleted is unlinked, every other link anywhere is untouched).",
+                  "be deleted and which IS one of the objects to be deleted - not a kept-id copy - is unlinked, every other link "
+                  "anywhere is untouched).",
              note="Assumed: h5py visititems reaches every group below the root and tolerates unlinking during the walk (delete_all's "
                   "traversal), H5Group.delete / __delitem__ primitives; ownership of content is HDF5 reachability; completeness of "
-                  "the tree search is the bounded stand-in of C13. The metadata deleters are not under contract.", ref="7 C04"),
+                  "the tree search is the bounded stand-in of C13. The whole-file effect of a delete is compared by a canonical walk in the bounded battery C04/bounded/c04.", ref="7 C04"),
  "C05": dict(text="Partial: deductive proof that a link list accepts an entity exactly when it is of the list's kind and IS (by "
                   "identity - same id under its name) a member of the owning block's container, refuses everything else with the "
                   "store untouched, and that the link created is the SAME HDF5 object as the original, filed under its id; that "
@@ -131,7 +130,7 @@ CLAIMED = {
                   "groups are outside the contract domain. Dimension links: link_data_array / link_data_frame are verified in prefix "
                   "mode (invalid index refused before the old link or the ticks are touched; link and ticks replace each other) and "
                   "DimensionLink.values designates exactly the configured vector. SourceLinkContainer.append (tree search with a "
-                  "lambda filter), Feature.data and linked unit/label forwarding are NOT under contract.", ref="7 C05"),
+                  "lambda filter), Feature.data and linked unit/label forwarding: bounded battery C05/bounded/c05 only.", ref="7 C05"),
  "C12": dict(text="Deductive proof, per public creating / mutating function under contract, that every path ending in a refusal leaves "
                   "the abstract store exactly as it was (an automatic obligation `atomic:<component>` for every raising path of "
                   "every unit: no write before the raise), and that the refusal is raised exactly under its stated condition: "
@@ -139,10 +138,9 @@ CLAIMED = {
                   "extend_values, Section.create_property, link-list append, DataSet.append (shape refusals), the data-frame "
                   "writers and - in prefix mode - create_block / create_tag / create_multi_tag / create_group / create_source / "
                   "create_section (duplicate or illegal name, empty type refused before anything is created).",
-             note="Assumed: the h5py primitives raise only per their stated preconditions. Not covered: create_data_array / "
-                  "create_data_frame (a failure after the group exists - wrong unit type, dtype/data mismatch - and a conversion "
-                  "failure inside DataSet.append after the resize are candidate findings F4, documented in DESIGN.md, outside the "
-                  "contracts), dimension linking, failures inside libhdf5.", ref="7 C12"),
+             note="Assumed: the h5py primitives raise only per their stated preconditions. The code of the creating functions after their refusal point (roll-backs added by the fix: commits for the F4 family) is "
+                  "exercised only by the bounded battery C12/bounded/c12 (56 refused calls, canonical walk before / after); failures "
+                  "inside libhdf5 are outside.", ref="7 C12"),
  "C20": dict(text="Partial (nixio side): deductive proof for Block._copy_objects (the common path of copying arrays, frames, tags and "
                   "multi-tags into a block) that an existing destination name is refused before anything is copied, that the "
                   "destination name is the supplied name or else the source's, that the HDF5 copy is asked for exactly the "
@@ -151,8 +149,9 @@ CLAIMED = {
                   "copied object carrying an id - groups and datasets (properties) alike - receives a fresh well-formed id and "
                   "nothing else is written. Completeness, independence and internal-link preservation of the copy are H5Ocopy "
                   "facts and are assumed.",
-             note="Assumed: H5Group.copy (H5Ocopy + visititems), uuid4. The public create_*(copy_from=...) wrappers, "
-                  "File.create_block's copy branch and copy_section are not under contract (thin delegation).", ref="7 C20"),
+             note="Assumed: H5Group.copy (H5Ocopy + visititems), uuid4. File.create_block's copy branch, File.copy_section and Section.copy_section are verified in prefix mode (existing name "
+                  "refused before anything is copied; name, id policy, shallow flag handed on); content, links, id policy and "
+                  "independence of the result (incl. deleting either side) only by the bounded battery C20/bounded/c20.", ref="7 C20"),
  "C02": dict(text="Partial, as representation invariant + inverse pairs over the abstract store: deductive proof, per attribute accessor "
                   "under contract (entity type / definition, array label / unit / expansion origin / polynomial coefficients, section "
                   "reference / repository, tag position / extent, multi-tag positions / extents, sampled-dimension interval / "
@@ -162,9 +161,8 @@ CLAIMED = {
                   "content; that a new Section handle carries no cached parent; that the sweeper unlinks every deleted member "
                   "(deleted things stay deleted); and that close() flushes. The step from there to the property - HDF5 reproduces "
                   "its content after close and reopen - is an assumption about libhdf5, not a proved clause.",
-             note="Assumed: HDF5 persistence across close/reopen, h5py attribute type round trip. Not covered: stale-handle behaviour "
-                  "(an H5Group caches the bound h5py object; whole-history, multi-handle statements need ghost sets of live "
-                  "handles), data-frame and feature accessors, containers' creation paths.", ref="7 C02"),
+             note="Assumed: HDF5 persistence across close/reopen, h5py attribute type round trip. Stale-handle behaviour (an H5Group caches the bound h5py object), close / reopen of a file with every entity kind: bounded "
+                  "battery C02/bounded/c02 only.", ref="7 C02"),
 }
 NA_REASON = "check not built yet in this round (design in DESIGN.md section 7); will be claimed once its contracts discharge"
 checks, na = [], []
@@ -182,7 +180,8 @@ for i in range(1, 21):
             "level_claimed": {"category": "proof", "text": c["text"], "design_ref": "DESIGN.md section " + c["ref"]},
             "level_note": c["note"],
             "technique": "contract-based deductive verification: sidecar contracts on the real functions, VC generation from the "
-                         "real ASTs (pyvc), z3 + cvc5",
+                         "real ASTs (pyvc), z3 + cvc5; functions outside the contracts' reach only by labelled BOUNDED stand-ins "
+                         "(replay/bounded.py on the real code, never counted as proved)",
         })
     else:
         na.append({"property_id": pid, "reason": NA_REASON})
